@@ -114,6 +114,9 @@ TNext ==
          [] e.k = "starved" ->
               /\ (inop[t] \in Readers) => Viol("C14: a reader cannot proceed while the other threads are suspended")
               /\ UNCHANGED mv
+         [] e.k = "soloyield" ->
+              /\ (inop[t] \in Readers) => Viol("C14: a reader spins waiting for a writer")
+              /\ UNCHANGED mv
          [] e.k \in {"deadlock", "budget"} -> Viol("C14: an operation never completes (deadlock or livelock)") /\ UNCHANGED mv
          [] e.k \in {"crash", "terminate"} -> Viol("C05: crash") /\ UNCHANGED mv
          [] OTHER -> UNCHANGED mv
